@@ -469,6 +469,14 @@ def stage_binding(cx):
             e.paths_at = {k: list(v) for k, v in d.paths_at.items()}
             e.paths_at[h] = e.paths_at[h] + ["zzq"]
             cases.append(("unmatched-property", e, ("reject", "Has unused parameters", ("path", h))))
+            # ... a stray property whose name IS a parameter - of another path of the document, not of this one
+            own = {nm for _, nm in param_prefixes(p)}
+            foreign = sorted({nm for _, q in d.hosts() for _, nm in param_prefixes(q)} - own)
+            for fn in foreign[:2]:
+                e = BDoc(d.layout)
+                e.paths_at = {k: list(v) for k, v in d.paths_at.items()}
+                e.paths_at[h] = e.paths_at[h] + [fn]
+                cases.append(("unmatched-property-named-like-another-paths-parameter", e, ("reject", "Has unused parameters", ("path", h))))
             # the same prefix declared by a second Path directive
             name = rnd.choice(names)
             pre = next(pr for pr, nm in param_prefixes(p) if nm == name)
